@@ -152,7 +152,8 @@ class TransitionBatch:
             if any(st["op"] != "export" for st in stable):
                 # a refused / failed call is a stutter step of the specification: whatever the state answered before
                 # it, it answers after it - so the exports of this state are asked again after the failures
-                todo += [st for st in stable if st["op"] == "export"]
+                # (in the opposite order: a shorter output asked after a longer one and vice versa)
+                todo += [st for st in reversed(stable) if st["op"] == "export"]
             while todo:
                 # one state, many calls
                 ses.n += 1
